@@ -172,6 +172,12 @@ class _IndexDatetimeGOMixin(_IndexGOMixin):
         self._positions_mutable_count += 1 #pylint: disable=E0237
         self._recache = True #pylint: disable=E0237
 
+    def extend(self, values: tp.Iterable[tp.Hashable]) -> None:
+        '''Specialize for fixed-typed indices: convert all values before appending any.
+        '''
+        _IndexGOMixin.extend(self,
+                tuple(to_datetime64(v, self._DTYPE) for v in values))
+
 #-------------------------------------------------------------------------------
 class IndexYear(IndexDatetime):
     '''A mapping of years (NumPy :obj:`datetime64[Y]`) to positions, immutable and of fixed size.
